@@ -1,12 +1,17 @@
 package c03
 
 import (
+	"bytes"
 	"fmt"
 	"math"
+	"sort"
 
 	zed "github.com/brimdata/super"
+	"github.com/brimdata/super/order"
 	"github.com/brimdata/super/pkg/field"
+	"github.com/brimdata/super/runtime/sam/expr"
 	"github.com/brimdata/super/runtime/vcache"
+	"github.com/brimdata/super/vng"
 	"github.com/brimdata/super/zcode"
 
 	"verif/oracle"
@@ -42,14 +47,16 @@ func untieFloat(typ zed.Type, body zcode.Bytes) zcode.Bytes {
 
 func isUnionT(typ zed.Type) bool { _, ok := typ.(*zed.TypeUnion); return ok }
 
-// flatReach reports whether typ is, or reaches through record fields and named
-// wrappers only (the chain along which vcache flattens nulls), a type satisfying pred.
+// flatReach reports whether typ is, or reaches through record fields and named/error
+// wrappers only (the chain along which vcache hands null counts down), a type satisfying pred.
 func flatReach(typ zed.Type, pred func(zed.Type) bool) bool {
 	if pred(typ) {
 		return true
 	}
 	switch typ := typ.(type) {
 	case *zed.TypeNamed:
+		return flatReach(typ.Type, pred)
+	case *zed.TypeError:
 		return flatReach(typ.Type, pred)
 	case *zed.TypeRecord:
 		for _, f := range typ.Fields {
@@ -67,11 +74,18 @@ func isNullOverUnion(typ zed.Type, body zcode.Bytes) bool { return body == nil &
 
 func isErrorT(typ zed.Type) bool { _, ok := typ.(*zed.TypeError); return ok }
 
-func isNullRecordOverError(typ zed.Type, body zcode.Bytes) bool {
-	if body != nil || zed.TypeRecordOf(typ) == nil {
+// isNullOverError: a null node with an error type strictly below it along the flatten chain.
+func isNullOverError(typ zed.Type, body zcode.Bytes) bool {
+	if body != nil {
 		return false
 	}
-	return flatReach(typ, isErrorT)
+	switch t := zed.TypeUnder(typ).(type) {
+	case *zed.TypeError:
+		return flatReach(t.Type, isErrorT)
+	case *zed.TypeRecord:
+		return flatReach(t, isErrorT)
+	}
+	return false
 }
 
 // ---- class: enum unsupported by the vector loader
@@ -253,15 +267,117 @@ func vpath(paths [][]string) vcache.Path {
 	return vcache.NewProjection(fp)
 }
 
+// typeTies maps every type-value body occurring in the input to the
+// representative (smallest bytes) of its tie class under the comparator the
+// dictionary encoder sorts with; bodies that tie with nothing map to themselves.
+func typeTies(input []zed.Value) map[string]string {
+	set := map[string]bool{}
+	for _, v := range input {
+		oracle.MapLeaves(v, func(typ zed.Type, body zcode.Bytes) zcode.Bytes {
+			if typ == zed.TypeType && body != nil {
+				set[string(body)] = true
+			}
+			return body
+		})
+	}
+	var bodies []string
+	for b := range set {
+		bodies = append(bodies, b)
+	}
+	sort.Strings(bodies)
+	cmp := expr.NewValueCompareFn(order.Asc, false)
+	rep := map[string]string{}
+	var reps []string
+	for _, b := range bodies {
+		rep[b] = b
+		for _, r := range reps {
+			if cmp(zed.NewValue(zed.TypeType, zcode.Bytes(b)), zed.NewValue(zed.TypeType, zcode.Bytes(r))) == 0 {
+				rep[b] = r
+				break
+			}
+		}
+		if rep[b] == b {
+			reps = append(reps, b)
+		}
+	}
+	return rep
+}
+
+// ---- class: plain (non-dictionary) net column
+
+func anyPrimitive(m vng.Metadata, pred func(*vng.Primitive) bool) bool {
+	switch m := m.(type) {
+	case *vng.Dynamic:
+		for _, v := range m.Values {
+			if anyPrimitive(v, pred) {
+				return true
+			}
+		}
+	case *vng.Nulls:
+		return anyPrimitive(m.Values, pred)
+	case *vng.Named:
+		return anyPrimitive(m.Values, pred)
+	case *vng.Error:
+		return anyPrimitive(m.Values, pred)
+	case *vng.Record:
+		for _, f := range m.Fields {
+			if anyPrimitive(f.Values, pred) {
+				return true
+			}
+		}
+	case *vng.Array:
+		return anyPrimitive(m.Values, pred)
+	case *vng.Set:
+		return anyPrimitive(m.Values, pred)
+	case *vng.Map:
+		return anyPrimitive(m.Keys, pred) || anyPrimitive(m.Values, pred)
+	case *vng.Union:
+		for _, v := range m.Values {
+			if anyPrimitive(v, pred) {
+				return true
+			}
+		}
+	case *vng.Primitive:
+		return pred(m)
+	}
+	return false
+}
+
+func hasPlainNet(data []byte) bool {
+	obj, err := vng.NewObject(bytes.NewReader(data))
+	if err != nil {
+		return false
+	}
+	return anyPrimitive(obj.Metadata(), func(p *vng.Primitive) bool {
+		return p.Typ == zed.TypeNet && len(p.Dict) == 0 && p.Count > 0
+	})
+}
+
 var knownClasses = []knownClass{
 	{
-		sig:     "C03/write/dict-order-ties",
-		stage:   "row",
-		present: func(c *checked) bool { return anyOf(c.input, isTieFloat) },
+		sig:   "C03/write/dict-order-ties",
+		stage: "row",
+		present: func(c *checked) bool {
+			if anyOf(c.input, isTieFloat) {
+				return true
+			}
+			for b, r := range typeTies(c.input) {
+				if b != r {
+					return true
+				}
+			}
+			return false
+		},
 		rewrite: func(c *checked) []zed.Value {
+			rep := typeTies(c.input)
 			out := make([]zed.Value, len(c.input))
 			for i, v := range c.input {
-				out[i] = oracle.MapLeaves(v, untieFloat)
+				out[i] = oracle.MapLeaves(v, func(typ zed.Type, body zcode.Bytes) zcode.Bytes {
+					if typ == zed.TypeType && body != nil {
+						return zcode.Bytes(rep[string(body)])
+					}
+					return untieFloat(typ, body)
+				})
 			}
 			return out
 		},
@@ -280,17 +396,49 @@ var knownClasses = []knownClass{
 		},
 	},
 	{
-		sig:     "C03/vector/error-under-null-record",
+		sig:     "C03/vector/error-under-nulls",
 		stage:   "vector",
 		crash:   true,
-		present: func(c *checked) bool { return anyOf(c.input, isNullRecordOverError) },
+		present: func(c *checked) bool { return anyOf(c.input, isNullOverError) },
 		rewrite: func(c *checked) []zed.Value {
 			return mapAll(c.input, func(typ zed.Type, body zcode.Bytes) (zcode.Bytes, bool) {
-				if isNullRecordOverError(typ, body) {
+				if isNullOverError(typ, body) {
 					return zeroBody(typ), true
 				}
 				return nil, false
 			})
+		},
+	},
+	{
+		sig:     "C03/vector/net-plain-column",
+		stage:   "vector",
+		crash:   true,
+		present: func(c *checked) bool { return hasPlainNet(c.data) },
+		rewrite: func(c *checked) []zed.Value {
+			// keep at most 200 distinct net values in the whole input, so every net column is const or dict
+			keep := map[string]bool{}
+			var first zcode.Bytes
+			f := func(typ zed.Type, body zcode.Bytes) zcode.Bytes {
+				if typ != zed.TypeNet || body == nil {
+					return body
+				}
+				if first == nil {
+					first = body
+				}
+				if keep[string(body)] {
+					return body
+				}
+				if len(keep) < 200 {
+					keep[string(body)] = true
+					return body
+				}
+				return first
+			}
+			out := make([]zed.Value, len(c.input))
+			for i, v := range c.input {
+				out[i] = oracle.MapLeaves(v, f)
+			}
+			return out
 		},
 	},
 	{
